@@ -3,7 +3,7 @@
 S=${1:-20260923}; shift
 ids=${@:-C02 C03 C04 C05 C06 C07 C08 C10 C11 C12 C13 C14 C15 C16 C19}
 for p in $ids; do
-  out=$(VERIF_SEED=$S VERIF_NOEVIDENCE=1 timeout 1500 /verif/dst check $p --tier quick 2>&1); rc=$?
+  out=$(VERIF_SEED=$S VERIF_NOEVIDENCE=1 timeout 1500 $(dirname $(readlink -f $0))/../dst check $p --tier quick 2>&1); rc=$?
   echo "== $p seed=$S rc=$rc $(echo "$out" | grep -E '^DONE' | cut -c1-200)"
   echo "$out" | grep -E "^(VIOLATION|  class|KNOWN|HARNESS|NOTE)" | cut -c1-500 | head -12
 done
